@@ -62,8 +62,15 @@ class CollectionValue(GenericValue):
         elif not isinstance(self._ast_node, ast.List):
             # the old value is no list (a tuple, set, dict, string ...)
             # and is replaced by the list of the tested values
+            new_value = self._new_value
             if any(not contains(self._old_value, v) for v in self._new_value):
                 flag = "fix"
+                if not state().update_flags.trim:
+                    # only the missing values are added,
+                    # the values which were not tested are kept
+                    new_value = list(self._old_value) + [
+                        v for v in new_value if not contains(self._old_value, v)
+                    ]
             elif any(not contains(self._new_value, v) for v in self._old_value):
                 flag = "trim"
             else:
@@ -72,10 +79,10 @@ class CollectionValue(GenericValue):
             yield Replace(
                 node=self._ast_node,
                 file=self._file,
-                new_code=self._new_code(),
+                new_code=self._file._value_to_code(new_value),
                 flag=flag,
                 old_value=self._old_value,
-                new_value=self._new_value,
+                new_value=new_value,
             )
             return
         else:
